@@ -27,12 +27,12 @@ theorem not_ev_of_same {E : Ev} (hE : E.ok h) {n : Nat} {a b : Sys} (ha : h[n]? 
   have := hsame E.l sta stb hla hlb hsl
   omega
 
-theorem rets_step (H : Hyp3 cfg c0 h) {n : Nat} (S : SAll h c0 n) {a b : Sys}
+theorem rets_step (H : Hyp3a cfg c0 h) {n : Nat} (S : SAll h c0 n) {a b : Sys}
     (ha : h[n]? = some a) (hb : h[n + 1]? = some b) :
     ∀ E : Ev, E.ok h → ∀ v st', b.node v = some st' → AckedDur b (n + 1) E v →
       Has (FS h c0 st') E.c E.t := by
   intro E hE v st' hvb hk
-  have H2 := H.toHyp2
+  have H2 := H.toHyp2w
   have Sa := S n a (Nat.le_refl _) ha
   obtain ⟨_, hEh, hc0⟩ := Ev.leaderLog H2 hE
   obtain ⟨k, stk, stk', hka, hkb, hoth, hs⟩ := stp_of H2 ha hb
@@ -126,13 +126,13 @@ theorem rets_step (H : Hyp3 cfg c0 h) {n : Nat} (S : SAll h c0 n) {a b : Sys}
         exact absurd (h1.trans this) hvk
       · exact .inr ⟨h1, by omega, h3⟩
 
-theorem a2s_step (H : Hyp3 cfg c0 h) {n : Nat} (S : SAll h c0 n) {a b : Sys}
+theorem a2s_step (H : Hyp3a cfg c0 h) {n : Nat} (S : SAll h c0 n) {a b : Sys}
     (ha : h[n]? = some a) (hb : h[n + 1]? = some b) :
     ∀ v st', b.node v = some st' → ∀ x ∈ b.net, isAck x → x.frm = v → c0 < x.index →
       x.term = st'.raft.raftLog.store.hardState.term →
       Promise h c0 (n + 1) x (FS h c0 st') := by
   intro v st' hvb x hx hack hfrm hidx hterm
-  have H2 := H.toHyp2
+  have H2 := H.toHyp2w
   have Sa := S n a (Nat.le_refl _) ha
   have hx0 : x.index ≠ 0 := by omega
   obtain ⟨k, stk, stk', hka, hkb, hoth, hs⟩ := stp_of H2 ha hb
